@@ -465,6 +465,14 @@ func (s *State) eqTruth(a, b *Term) int {
 }
 
 // Frame is one activation of a function being simulated.
+// BackEdgeValsClient: optional; told, after OnBackEdge, the state at the head of
+// this iteration and the values of the header's phis at the head and as the
+// back edge hands them on (for ranking-function rules).
+type BackEdgeValsClient interface {
+	WantsBackEdgeVals() bool
+	OnBackEdgeVals(x *Exec, st *State, fr *Frame, cur *Term, head *State, headVals, nextVals map[string]*Term)
+}
+
 type Frame struct {
 	fn     *ssa.Function
 	env    map[ssa.Value]*Term
@@ -616,6 +624,13 @@ func (x *Exec) curMark() *Term {
 }
 
 // fresh creates a per-site unknown value, scoped to the current loop iteration.
+// budgets of one simulation; on the reference tree the largest simulation takes
+// about 0.6 M steps and the largest loop-head state is about 100 KB
+const (
+	maxHeadKey    = 1 << 20
+	maxTotalSteps = 30_000_000
+)
+
 func (x *Exec) fresh(op string, fr *Frame, id string, typ types.Type) *Term {
 	return mk(op, fr.ctx+"/"+id, typ, x.curMark())
 }
@@ -1102,6 +1117,9 @@ func (x *Exec) execFrom(fr *Frame, b *ssa.BasicBlock, pred *ssa.BasicBlock, idx 
 			ins := b.Instrs[i]
 			st.steps++
 			x.NStates++
+			if x.NStates > maxTotalSteps {
+				fatalf("pathsim: analysis budget exceeded: more than %d instruction steps in one simulation (entered at %s)", maxTotalSteps, funcKey(fr.fn))
+			}
 			if st.steps > x.MaxSteps {
 				fatalf("pathsim: step cap exceeded in %s", funcKey(fr.fn))
 			}
@@ -1355,6 +1373,13 @@ func (x *Exec) execLoopUncached(fr *Frame, li *loopInfo, pred *ssa.BasicBlock, s
 	var lastBacks []*State
 	for round := 0; round < 12; round++ {
 		x.NRounds++
+		if x.NRounds%8 == 0 {
+			// budget: a state that keeps growing from round to round (a value
+			// copied into itself) is given up on instead of being followed for hours
+			if n := len(head.key()); n > maxHeadKey {
+				fatalf("pathsim: analysis budget exceeded: the abstract state at the loop %s#b%d grew to %d bytes (largest on the reference tree: about 100 KB)", funcKey(fr.fn), li.header.Index, n)
+			}
+		}
 		if os.Getenv("RSA_DEBUG") != "" {
 			fmt.Fprintf(os.Stderr, "loop %s#b%d round %d headkey %d bytes\n", funcKey(fr.fn), li.header.Index, round, len(head.key()))
 			if os.Getenv("RSA_DEBUG_LOOP") == funcKey(fr.fn) {
@@ -1407,6 +1432,12 @@ func (x *Exec) execLoopUncached(fr *Frame, li *loopInfo, pred *ssa.BasicBlock, s
 			}
 			lc.OnLoopHead(x, hs, hf, loopID, pm)
 		}
+		var hsSnap *State
+		bvc, wantsVals := x.C.(BackEdgeValsClient)
+		wantsVals = wantsVals && bvc.WantsBackEdgeVals()
+		if wantsVals {
+			hsSnap = hs.clone()
+		}
 		x.marks = append(x.marks, cur)
 		outs := x.execFromHeader(hf, li, hs)
 		x.marks = x.marks[:len(x.marks)-1]
@@ -1421,6 +1452,16 @@ func (x *Exec) execLoopUncached(fr *Frame, li *loopInfo, pred *ssa.BasicBlock, s
 			if o.kind == outBackEdge {
 				x.C.OnBackEdge(x, o.st, o.fr, cur)
 				pi := predIdx(o.from)
+				if wantsVals && pi >= 0 {
+					hv, nv := map[string]*Term{}, map[string]*Term{}
+					for _, ph := range phis {
+						if v, ok := o.fr.env[ph]; ok {
+							hv[ph.Name()] = v
+						}
+						nv[ph.Name()] = x.val(o.fr, ph.Edges[pi])
+					}
+					bvc.OnBackEdgeVals(x, o.st, o.fr, cur, hsSnap, hv, nv)
+				}
 				if lc, ok := x.C.(LoopInvClient); ok && pi >= 0 {
 					nm := map[string]*Term{}
 					for _, ph := range phis {
